@@ -89,3 +89,4 @@ def run(ctx):
     ctx.floor("W3.setting_reads", uses, 3)
     ctx.ob("W3.PRAGMA-ISOLATION", "sync_mode/threshold", not bad, "%d read(s), all in the WAL/commit layers" % uses if not bad else
            "durability settings are read by %s" % sorted({h for h, _ in bad})[:3], bad[0][1].loc() if bad else "")
+    common.checkpoint_after_flush(ctx, "W4.CHECKPOINT-AFTER-FLUSH")
